@@ -22,6 +22,7 @@ other spelling than the written one shows as a wrong order.  The same for names 
 from the namespace, and for namespace entries that merely share the name of a predefined function or of a
 direction word.  A rendering that does not return within the time limit is a failure, not waited for.
 """
+import collections
 import copy
 import datetime
 import decimal
@@ -37,7 +38,50 @@ import common
 KINDS = ['int', 'str', 'float', 'bool', 'date', 'Decimal', 'callable', 'strnc',
          'floatnear', 'num', 'intwide', 'callnear']
 # keys of plain items / 2-tuples (empty sort, sort=sequence-item)
-ITEM_KINDS = ['int', 'str', 'int', 'str', 'floatnear', 'num', 'intwide', 'Decimal', 'date', 'bool']
+ITEM_KINDS = ['int', 'str', 'int', 'str', 'floatnear', 'num', 'intwide', 'Decimal', 'date', 'bool',
+              'strshort', 'strshort', 'strsub', 'bytes', 'list', 'tuplen']
+# elements that are themselves sequences, of every length 1..3, several of them sharing their first member: only a
+# real tuple of exactly two members is a (key, value) pair, everything else is ordered by the element itself.
+# Each domain is written down in ascending order (code point / lexicographic order); the position is the key code
+SHORT_STR = ['B', 'Ba', 'a', 'a b', 'aa', 'ab', 'abc', 'b', 'ba', 'bb']
+SHORT_BYTES = [b'A', b'Aa', b'a', b'aa', b'ab', b'abc', b'b', b'ba']
+SHORT_LIST = [[0], [0, 0], [0, 1], [0, 1, 0], [1], [1, 0], [1, 0, 0], [2]]
+NON_PAIR_TUPLES = [(0,), (0, 0, 1), (0, 1, 0), (1,), (1, 0, 0), (2,)]     # tuples that are not pairs: 1 and 3 members
+
+
+class Str(str):
+    """a str subclass (what a catalog / record set hands out): ordered and shown like the str it is"""
+
+
+class Row(list):
+    """a record row: a list (of any length, also 2) that carries the sort keys as attributes"""
+    def __init__(self, cells, eid, **kw):
+        list.__init__(self, cells)
+        self.eid = eid
+        self.__dict__.update(kw)
+
+    def __repr__(self):
+        return 'Row(%s, %r)' % (list.__repr__(self), self.__dict__)
+
+
+class URow(collections.UserList):
+    """the same as a collections.abc.Sequence that is no list"""
+    def __init__(self, cells, eid, **kw):
+        collections.UserList.__init__(self, cells)
+        self.eid = eid
+        self.__dict__.update(kw)
+
+
+class SRow(str):
+    """a str (of any length, also 2) that carries the sort keys as attributes"""
+    def __new__(cls, cells, eid, **kw):
+        o = str.__new__(cls, ''.join('xy'[c % 2] for c in cells))
+        o.eid = eid
+        o.__dict__.update(kw)
+        return o
+
+
+ELEM_CLASSES = ['Obj', 'Obj', 'Obj', 'Row', 'URow', 'SRow']
 NEAR = [-0.25, 0.1, 0.3, 0.75]              # floats closer together than 1, both signs
 WIDE = [-2 ** 70, -1, 0, 2 ** 70]           # ints beyond the machine word
 
@@ -84,6 +128,17 @@ def mk_key(kind, code, r):
         return (lambda c=code: NEAR[c % 4]), {'a': 'callable', 'k': code % 4}
     if kind == 'intwide':
         return WIDE[code % 4], {'a': 'plain', 'k': code % 4}
+    if kind in ('strshort', 'strsub', 'bytes', 'list', 'tuplen'):
+        # the abstract code picks a neighbourhood of the domain, the draw the member: neighbours share their beginning
+        dom = {'strshort': SHORT_STR, 'strsub': SHORT_STR, 'bytes': SHORT_BYTES, 'list': SHORT_LIST,
+               'tuplen': NON_PAIR_TUPLES}[kind]
+        i = (2 * code + r.randrange(3)) % len(dom)
+        pv = dom[i]
+        if kind == 'strsub':
+            pv = Str(pv)
+        elif kind == 'list':
+            pv = list(pv)
+        return pv, {'a': 'plain', 'k': dom[i] if isinstance(dom[i], str) else i}
     if kind == 'num':
         # the number code/2 in one of its spellings: 1 == 1.0 == True are equal keys that print differently,
         # so stability is observable even on plain items
@@ -264,6 +319,18 @@ def gen_field(r, i, used=()):
     return f
 
 
+def mk_obj(r, elem_class, eid, attrs):
+    """the object that carries the sort keys: a plain instance, or an instance that is also a sequence of 0..3 cells"""
+    if elem_class == 'Obj':
+        return Obj(eid, **attrs)
+    cells = [r.randrange(3) for _ in range(r.choice([0, 1, 2, 2, 2, 3]))]
+    return {'Row': Row, 'URow': URow, 'SRow': SRow}[elem_class](cells, eid, **attrs)
+
+
+def mk_pair(pair_class, key, value):
+    return (key, value) if pair_class is tuple else pair_class(key, value)
+
+
 def gen_case(r, tier):
     n = r.choice([0, 1, 2, 3, 4, 5, 6, 7, 8])
     nfields = r.choice([0, 1, 1, 1, 2, 2])
@@ -284,8 +351,16 @@ def gen_case(r, tier):
     if nfields == 0:
         container = r.choice(['plain', 'tuple'])
     rows, elems = [], []
+    elem_class = r.choice(ELEM_CLASSES)
+    # (pairs are real tuples only: the rendering loops take `type(x) is tuple` for a pair, sort_sequence
+    # `isinstance(x, tuple)`; what a tuple subclass of two members is, is not said by the property)
+    pair_class = tuple
+    if any(hasattr({'Obj': Obj, 'Row': Row, 'URow': URow, 'SRow': SRow}[elem_class], nm) for nm in taken):
+        elem_class = 'Obj'      # a key name that is a method of list / str (sort, reverse, title, ...): not a missing key
     dom = r.choice([2, 3, 4])
     item_kind = r.choice(ITEM_KINDS)
+    if item_kind == 'bytes' and nfields == 0:
+        container = 'tuple'     # bytes as keys of pairs only: how dtml-var shows bytes is not this property's business
     for eid in range(n):
         row, attrs = [], {}
         for f in fields:
@@ -309,15 +384,15 @@ def gen_case(r, tier):
             if container == 'plain':
                 elems.append(pv)
             else:
-                elems.append((pv, Obj(eid)))
+                elems.append(mk_pair(pair_class, pv, mk_obj(r, elem_class, eid, {})))
         elif container == 'obj':
-            elems.append(Obj(eid, **attrs))
+            elems.append(mk_obj(r, elem_class, eid, attrs))
         elif container == 'mapping':
             d = dict(attrs)
             d['eid'] = eid
             elems.append(d)
         else:
-            elems.append(('key%d' % eid, Obj(eid, **attrs)))
+            elems.append(mk_pair(pair_class, 'key%d' % eid, mk_obj(r, elem_class, eid, attrs)))
         rows.append(row)
     return {'fields': fields, 'rows': rows, 'container': container, 'reverse': r.random() < 0.3,
             'via': r.choice(['sort', 'sort', 'sort_expr']), 'rev_via': r.choice(['reverse', 'reverse_expr']),
@@ -325,6 +400,8 @@ def gen_case(r, tier):
             'elems': elems, 'sorted': nfields > 0 or r.random() < 0.8, 'item_kind': item_kind,
             'isort_spelling': r.choice(['', 'sequence-item']), 'fn_via': r.choice(['kw', 'kw', 'client', 'mapping']),
             'distractors': [v for v, _ in distract],
+            'elem_class': elem_class if container != 'plain' and container != 'mapping' else None,
+            'pair_class': pair_class.__name__ if container == 'tuple' else None,
             # how the sort attribute is written: sort="spec", sort=spec (when the spec allows it), bare `sort` (empty spec)
             'quoting': r.choice(['quoted', 'quoted', 'unquoted', 'bare']),
             # namespace entries that share the name of a predefined function / a direction word / an attribute of the
@@ -454,7 +531,8 @@ def observe(case):
         attrs.append('mapping')
     if case['batch']:
         attrs.append('size=%d' % case['batch'])
-    body = '<dtml-var sequence-item>,' if case['container'] == 'plain' else '<dtml-var eid>,'
+    # plain items show themselves (lists and tuples with ', ' inside): ';' ends an item
+    body = '<dtml-var sequence-item>;' if case['container'] == 'plain' else '<dtml-var eid>,'
     src = '<dtml-in L %s>%s</dtml-in>' % (' '.join(attrs), body)
     elems = case['elems']
     snapshot = list(elems)
@@ -542,6 +620,10 @@ def canon(case, ids):
     return out
 
 
+def plain_tokens(obs):
+    return [t for t in obs['raw'].split(';') if t != '']
+
+
 def displayed_ids(case, obs):
     toks = [t for t in obs['raw'].split(',') if t != '']
     if case['container'] == 'plain':
@@ -608,7 +690,7 @@ def oracle_plain(case, obs):
         bad.append("the caller's sequence was modified")
     if obs.get('elems_mutated'):
         bad.append("the elements of the caller's sequence were modified")
-    toks = [t for t in obs['raw'].split(',') if t != '']
+    toks = plain_tokens(obs)
     want = [str(case['elems'][e]) for e in expected_order(case)]
     if case['batch']:
         want = want[:len(toks)]
@@ -674,7 +756,11 @@ def run(res, tier, have_driver):
                 'from small domains with duplicates, None and missing, of types int (also beyond 2**64), str, float '
                 '(also closer together than 1 and negative), bool, date, Decimal, callable (int and float results), '
                 'and numbers that are equal but print differently (1, 1.0, True); plain items and 2-tuple keys of '
-                'all these types, plain items compared by their shown text; comparison function cmp / nocase / '
+                'all these types, plain items compared by their shown text (also against the model); plain items / pair '
+                'keys that are themselves sequences of 1..3 members sharing their beginnings: str and str-subclass of 1, 2 '
+                'and 3 characters, bytes (pair keys only), lists, tuples of 1 and 3 members (only a real 2-tuple is a pair); pairs as '
+                'tuple or named tuple; the objects carrying the sort keys are plain instances or instances that are '
+                'also sequences of 0..3 cells (list subclass, UserList, str subclass: record rows); comparison function cmp / nocase / '
                 'locale / strcoll / locale_nocase / strcoll_nocase / a function from the namespace with the meaning '
                 'of cmp, reversed cmp or nocase that reports negative-zero-positive as -1/0/1, float, fraction below '
                 '1, 1e-9, Fraction, Decimal, 2**70, infinity, -0.0 for equal, or as the difference of the keys (a - b; '
@@ -737,6 +823,13 @@ def run(res, tier, have_driver):
                                       'quoted' if a.startswith('sort="') else 'unquoted'))
         if not case['fields']:
             res.count('item_keytype=' + case['item_kind'])
+            if case['sorted'] and case['container'] == 'plain':
+                res.count('plain_sorted_item_lengths=' + ','.join(sorted({
+                    str(len(e)) if hasattr(e, '__len__') else '-' for e in case['elems']})))
+        if case.get('elem_class'):
+            res.count('elem_class=' + case['elem_class'])
+        if case.get('pair_class'):
+            res.count('pair_class=' + case['pair_class'])
         if case['sorted'] and 'exc' not in obs and not any_none(case):
             res.count('exact_order_compared')
         reqs.append(model_req(case))
@@ -772,6 +865,16 @@ def run(res, tier, have_driver):
                 continue
             ids = displayed_ids(case, obs)
             if ids is None:
+                # plain items (no None keys among them): the texts of the model's order against the shown ones
+                toks = plain_tokens(obs)
+                m = [str(case['elems'][e]) for e in rp['ok']]
+                if case['batch']:
+                    m = m[:len(toks)]
+                res.corr_checked += 1
+                res.count('plain_items_correspondence')
+                if toks != m:
+                    res.corr_mismatch.append({'case': {k: v for k, v in case.items() if k != 'elems'}, 'impl': toks,
+                                              'model': m, 'diff': 'display order of plain items', 'src': obs['src']})
                 continue
             m = rp['ok']
             if case['batch']:
